@@ -61,11 +61,13 @@ PROPS = {
              "dependencies. Trusted: rustc trait solver, emmyfacts, the per-thread table (1 entry) and the audited statics (3) in rules/c38.py."),
     "C26": dict(
         module="c26", func="run", level="proof", crates=["emmylua_ls"],
-        technique="table evaluation from MIR (match arms, vec! literals, const items) and entry-by-entry agreement",
+        technique="table evaluation from MIR (match arms, vec! literals, const items) and entry-by-entry agreement; value-source analysis of token record fields; presence of an end-of-previous-token comparison in the builder",
         text="Proves the legend clause: for every token kind the index sent on the wire selects, in the registered "
              "legend, exactly the LSP type the kind stands for; every modifier bit i is legend entry i; the registered "
-             "legend is built from these tables. Exhaustive over the finite tables (24 kinds, 10 modifiers).",
-        note="Only the legend agreement is decided. Token ordering/overlap, symbol nesting, folding/selection ranges, "
+             "legend is built from these tables. Exhaustive over the finite tables (24 kinds, 10 modifiers). Two structural "
+             "premises of 'ordered, non-overlapping, in-document tokens' are decided as well: token columns and lengths are both "
+             "character counts from get_line_col (R26e), and the builder has an overlap filter at all (R26f -- it has none: open finding).",
+        note="The legend agreement is proved; R26e/R26f are necessary conditions only. Symbol nesting, folding/selection ranges, "
              "completion edits and edit overlap are data dependent and not decided. Trusted: rustc MIR, emmyfacts, "
              "enum discriminants = declaration order for a fieldless enum without explicit discriminants."),
     "C39": dict(
